@@ -42,7 +42,10 @@ def gen_case(rng, tier="quick"):
     n = rng.randrange(3, 9)
     case = {"method": method, "n": n}
     m = {"dt": _pick(rng, [0.1, 0.15, 0.2]),
-         "epsrel": _pick(rng, [1e-9, 1e-10]),
+         # truncation far below the comparison tolerance (1e-7): a singular
+         # value sitting on the threshold may fall either side in two runs of
+         # the same computation, which moves the states by ~100 x epsrel
+         "epsrel": _pick(rng, [1e-11, 1e-12]),
          "coupling": _pick(rng, ["z", "x", "y"], [3, 2, 1]),
          "alpha": _r(rng, 0.1, 0.6), "temperature": _pick(rng, [0.0, 0.5, 2.0]),
          "cutoff": _r(rng, 1.5, 4.0), "zeta": _pick(rng, [1.0, 1.0, 3.0]),
@@ -102,7 +105,7 @@ def gen_case(rng, tier="quick"):
         m["sites"] = _pick(rng, [2, 3, 3])
         m["pts"] = _pick(rng, ["none", "first", "all"])
         m["order"] = _pick(rng, [1, 2])
-        m["epsrel"] = _pick(rng, [1e-10, 1e-11])
+        m["epsrel"] = _pick(rng, [1e-11, 1e-12])
         m["controls"] = rng.random() < 0.4
         m["start_step"] = _pick(rng, [0, 0, 1])
         m["tuple_site"] = rng.random() < 0.4
@@ -351,7 +354,9 @@ def build_gibbs(m, n):
 # ---------------------------------------------------------------------------
 
 def _tol(m):
-    return max(1e-9, 100 * m["epsrel"])
+    # fixed, with epsrel <= 1e-9 everywhere (generators use 1e-11/1e-12):
+    # observed noise <= 1e-3 x tolerance, smallest defect 2e-5 = 200 x
+    return 1e-7
 
 
 def _dyn_arrays(method, obj):
@@ -735,8 +740,10 @@ COMPONENTS = {
              "arrays"],
 }
 ASSUMPTIONS = [
-    "tolerance max(1e-9, 100*epsrel) with epsrel <= 1e-9: same algorithm, "
-    "same order of operations; observed noise 1e-14",
+    "tolerance 1e-7 with epsrel 1e-11/1e-12: same algorithm, same order of "
+    "operations; observed noise <= 1e-3 of the tolerance (with epsrel 1e-9 "
+    "a run-to-run deviation of 0.7 x tolerance was seen once in 1.5e4 "
+    "histories: a singular value on the truncation threshold)",
     "a retry after an injected failure may raise again (allowed); only a "
     "successful retry with different dynamics, or wrong partial dynamics, "
     "is a violation",
@@ -775,7 +782,7 @@ def summarize(results):
 # over a grid of three steps, and every single fault placement followed by a
 # retry, for one canonical model per continuing method
 
-_BASE = {"dt": 0.1, "epsrel": 1e-9, "coupling": "x", "alpha": 0.3,
+_BASE = {"dt": 0.1, "epsrel": 1e-11, "coupling": "x", "alpha": 0.3,
          "temperature": 0.5, "cutoff": 3.0, "zeta": 1.0, "hx": 1.2,
          "hz": 0.4, "w": 2.0, "gamma": 0.2, "initial": "up",
          "start_time": 0.35}
@@ -785,7 +792,7 @@ CANONICAL = {
                   unique=False, subdiv=None, act=0.25),
     "mean_field": dict(_BASE, dkmax=1, nsys=2, unique=False, subdiv=None,
                        kappa=0.3, g=0.5),
-    "pt_tebd": dict(_BASE, sites=3, pts="all", order=2, epsrel=1e-10,
+    "pt_tebd": dict(_BASE, sites=3, pts="all", order=2, epsrel=1e-11,
                     controls=True, start_step=0, tuple_site=True),
 }
 
